@@ -90,9 +90,13 @@ REQUIRED_BINS = (
      "scr_on", "scr_off_own", "scr_off_partner", "scr_stale_partner_request", "scr_own_request_changed",
      "reset_same_cycle_as_answer", "reset_1_cycle", "reset_long", "handshake_pulse_outside_idle", "ts2_seen_before_training",
      "strict_ts1_during_lfps", "training_without_ts2", "idle_entered_with_handshake_already_high",
-     "f_25000", "f_33333", "f_50000", "f_100000", "loosened", "strict"])
+     "f_25000", "f_33333", "f_50000", "f_100000", "loosened", "strict",
+     "lfps_exit_counts_judged", "lfps_first_burst_after_12_sent", "lfps_first_burst_early"] +
+    ["quiet_timeout_" + n for n in ("QUIET_rxdetect", "QUIET_inactive", "LFPS", "TS1_polling", "TS1_recovery", "TS2_polling",
+                                    "TS2_recovery", "TS2_hot_reset", "IDLE_polling", "IDLE_recovery", "IDLE_hot_reset")])
 REQUIRED_EVENTS = ["cycles_judged", "ready_rises_judged", "entering_u0_judged", "reset_cycles_judged",
-                   "timed_cycles_judged", "timed_intervals_closed", "u0_scrambling_judged", "own_request_judged"]
+                   "timed_cycles_judged", "timed_intervals_closed", "u0_scrambling_judged", "own_request_judged",
+                   "quiet_exits_judged"]
 ASSUMPTIONS = [
     "clock scaled to 25-250 kHz: time-outs are judged in cycles, ceil(timeout*f)+3",
     "power-on reset = simulator start or in_usb_reset (the power_on_reset port is not connected to anything in luna)",
@@ -114,6 +118,7 @@ ACTIVITY = (("link_ready", "U0"), ("perform_idle_handshake", "IDLE"), ("send_ts2
             ("perform_rx_detection", "DETECT"), ("act_as_loopback", "LOOPBACK"))
 TIMEOUT_MS = {"QUIET": 12, "LFPS": 360, "TS1": 12, "TS2": 12, "IDLE": 2}
 SLACK = 3
+FORWARD_SIGS = ("TSEQ", "TS1", "TS2", "IDLE", "U0", "LOOPBACK")
 
 
 def classify(o):
@@ -145,6 +150,10 @@ class Judge:
         self.A = dict(detect=False, lfps=False, tseq=False, ts1=False)
         self.everA = dict(self.A)
         self.lfps_by_lfps = False
+        self.lfps_first = None
+        self.lfps_ts1 = False
+        self.prev_cnt = 0
+        self.act_hist = deque(maxlen=3)
         self.B = dict(ts2det=False, ts2burst=False, idle=False)
         self.hist = deque(maxlen=4)           # (sig, reset, link_ready) of previous cycles, newest last
         self.last_reset = None
@@ -184,7 +193,7 @@ class Judge:
             self.run_start_next = sig
 
         if sig != self.sig:
-            self._close_interval(k)
+            self._close_interval(k, sig)
             prev_sig = self.sig
             self.sig, self.sig_start = sig, k
             self.timeout_flagged = False
@@ -200,6 +209,10 @@ class Judge:
         if sig == "DETECT" and i["link_partner_detected"]:
             self._a("detect")
         if sig == "LFPS":
+            if i["lfps_polling_detected"] and self.lfps_first is None:
+                self.lfps_first = i["lfps_cycles_sent"]
+            if i["ts1_detected"] or i["inverted_ts1_detected"]:
+                self.lfps_ts1 = True
             if i["lfps_polling_detected"]:
                 self._a("lfps")
                 self.lfps_by_lfps = True
@@ -302,6 +315,9 @@ class Judge:
         self.hist.append((sig, reset, o["link_ready"]))
         self.ds_hist.append(i["disable_scrambling"])
         self.prev_req = req
+        cnt = i["lfps_cycles_sent"]
+        self.act_hist.append(bool(reset or cnt != self.prev_cnt or any(i[n] for n in PULSE_INPUTS)))
+        self.prev_cnt = cnt
 
     # -------------------------------------------------------------------------------------
     def _a(self, m):
@@ -316,14 +332,50 @@ class Judge:
             return "LFPS"
         return sig + "_" + self.ctx
 
-    def _close_interval(self, k):
+    def _close_interval(self, k, new_sig):
+        """the interval of self.sig ended in cycle k-1; `new_sig` is what follows"""
         sig = self.sig
+        res = self.res
         if sig in self.T:
             n = k - self.sig_start
+            T = self.T[sig]
             timed = not (sig == "TS2" and not self.ts2_hot and not self.ts2_timed)
-            self.res.event("timed_intervals_closed")
-            if timed and self.T[sig] <= n <= self.T[sig] + SLACK:
-                self.res.bin("timeout_" + self._timed_name(sig))
+            res.event("timed_intervals_closed")
+            if timed and T <= n <= T + SLACK:
+                res.bin("timeout_" + self._timed_name(sig))
+            # An exit in whose last three cycles no input was active (no pulse input, no reset, LFPS counter constant)
+            # can only have been caused by a timer.  Exits right after entry (latched requests) are not judged.
+            quiet = len(self.act_hist) == 3 and not any(self.act_hist) and n > 3
+            if timed and quiet:
+                res.event("quiet_exits_judged")
+                name = self._timed_name(sig)
+                if n < T - 1:
+                    res.violation("left_before_timeout_without_cause_" + name,
+                                  "signature %s entered in cycle %d was left after %d cycles although no input was active in "
+                                  "its last three cycles; documented time-out %d ms = %d cycles" % (
+                                      sig, self.sig_start, n, TIMEOUT_MS[sig], T))
+                elif n <= T + SLACK:
+                    res.bin("quiet_timeout_" + name)
+                    if new_sig in FORWARD_SIGS:
+                        # USB 3.2 7.5: every Polling / Recovery / Hot Reset / Rx.Detect.Quiet / SS.Inactive.Quiet time-out
+                        # leads to Rx.Detect, SS.Inactive, eSS.Disabled or Compliance -- never further into training
+                        res.violation("timeout_advances_training_" + name,
+                                      "signature %s timed out after %d cycles (cycle %d) and was followed by signature %s" % (
+                                          sig, n, k, new_sig))
+        if sig == "LFPS" and new_sig == "TSEQ":
+            # Polling.LFPS -> Polling.RxEQ [USB 3.2 7.5.4.3.2]: >= 16 bursts sent, >= 4 of them after the first received one
+            res.bin("lfps_exit_counts_judged")
+            sent = self.prev_cnt
+            if sent < 16:
+                res.violation("lfps_left_before_16_bursts_sent",
+                              "Polling.LFPS signature (cycles %d..%d) left for TSEQ with lfps_cycles_sent=%d" % (
+                                  self.sig_start, k - 1, sent))
+            if self.lfps_first is not None:
+                res.bin("lfps_first_burst_after_12_sent" if self.lfps_first > 12 else "lfps_first_burst_early")
+                if not (self.loose and self.lfps_ts1) and sent < self.lfps_first + 4:
+                    res.violation("lfps_left_before_4_bursts_after_first_received",
+                                  "Polling.LFPS signature (cycles %d..%d) left for TSEQ with lfps_cycles_sent=%d; the first "
+                                  "polling burst was received at lfps_cycles_sent=%d" % (self.sig_start, k - 1, sent, self.lfps_first))
 
     def _enter(self, sig, prev, k, i):
         if sig == "TS1":
@@ -354,6 +406,8 @@ class Judge:
                 self.quiet_kind = "rxdetect"
         elif sig == "LFPS":
             self.lfps_by_lfps = False
+            self.lfps_first = None
+            self.lfps_ts1 = False
         elif sig == "DETECT":
             self.detect_kind = "inactive" if (prev == "QUIET" and self.quiet_kind == "inactive") else "rxdetect"
 
@@ -626,7 +680,8 @@ class Partner:
                     self.pulse("ts2_detected", d0 + r.randint(0, 80), 1, r.randint(3, 30), 1000)
             if kind == "det_before_burst":
                 self.pulse(r.choice(["ts1_detected", "ts2_detected"]), 0, 1, 1, max(1, b0 - 1))
-            self.training_extras(0)
+            if kind != "none":
+                self.training_extras(0)
         elif sig == "TS2":
             hot = prev == "IDLE"
             self.in_hot = hot
@@ -635,7 +690,7 @@ class Partner:
             dwell = T12 if silent else 40
             kind = "both"
             if silent:
-                kind = r.choice(["none", "no_burst", "no_ts2", "no_ts2"])
+                kind = r.choice(["none", "none", "no_burst", "no_ts2"])
             elif self.early_ts2 and not hot and r.random() < 0.6:
                 kind = "no_ts2"
             if not hot:
@@ -651,9 +706,11 @@ class Partner:
             if hot:
                 # the partner keeps the hot-reset bit in its TS2s for a while (or for ever)
                 self.hot_level_until = r.choice([0, r.randint(1, 120), r.randint(1, 120), 10 ** 9 if silent else r.randint(1, 60)])
-            else:
+                if kind == "none" and r.random() < 0.6:
+                    self.hot_level_until = r.randint(0, 40)      # completely silent partner: a pure time-out
+            elif kind != "none":
                 self.training_extras(1)
-            if r.random() < 0.25:
+            if kind != "none" and r.random() < 0.25:
                 # prescient idle handshake: already reported when the idle state is entered
                 self.pulse("idle_handshake_complete", r.randint(0, 30), r.randint(1, 400), 0, 1)
         elif sig == "IDLE":
